@@ -18,9 +18,10 @@ definitions regenerated from the Python source (`PdfVerif.Gen.FontTables`).
 This file imports nothing from Mathlib.
 -/
 import PdfVerif.Model.Prelude
+import PdfVerif.Gen.FontCode
 
 namespace PdfVerif.SimpleFont
-open PdfVerif
+open PdfVerif PdfVerif.Gen.FontCode
 
 abbrev Name := List Char
 abbrev Text := List Nat
@@ -60,25 +61,24 @@ def groups4 : List Char → List Nat
   | a :: b :: c :: d :: rest => hexVal [a, b, c, d] :: groups4 rest
   | _ => []
 
-/-- `raise_key_error_for_invalid_unicode` does NOT raise. -/
-def validUnicode (v : Nat) : Bool := !(55295 < v && v < 57344) && !(v > 0x10FFFF)
+/-- `raise_key_error_for_invalid_unicode` does NOT raise (`invalidUnicode` is regenerated from its body). -/
+def validUnicode (v : Nat) : Bool := !invalidUnicode v
 
-def uniPrefix : List Char := ['u', 'n', 'i']
-
-/-- `name2unicode` on a name without `.` and `_` (the non-recursive branches). -/
+/-- `name2unicode` on a name without `.` and `_` (the non-recursive branches).  The prefixes, the group
+size and the length bounds are the constants regenerated from the Python source (`Gen/FontCode.lean`). -/
 def comp (gl : GlyphList) (c : Name) : Option Text :=
   match glLookup gl c with
   | some t => some t
   | none =>
-    if uniPrefix.isPrefixOf c then
-      let r := c.drop 3
-      if allHex r && r.length % 4 == 0 then
+    if UNI_PREFIX.isPrefixOf c then
+      let r := c.drop UNI_PREFIX.length
+      if allHex r && r.length % UNI_GROUP == 0 then
         let vs := groups4 r
         if vs.all validUnicode then some vs else none
       else none
-    else if ['u'].isPrefixOf c then
-      let r := c.drop 1
-      if allHex r && 4 ≤ r.length && r.length ≤ 6 then
+    else if U_PREFIX.isPrefixOf c then
+      let r := c.drop U_PREFIX.length
+      if allHex r && U_MIN ≤ r.length && r.length ≤ U_MAX then
         let v := hexVal r
         if validUnicode v then some [v] else none
       else none
@@ -94,7 +94,7 @@ def splitOn (sep : Char) : List Char → List (List Char)
       | [] => [[c]]
 
 /-- `name.split(".")[0]`. -/
-def beforeDot (n : Name) : Name := n.takeWhile (fun c => c != '.')
+def beforeDot (n : Name) : Name := n.takeWhile (fun c => c != SUFFIX_SEP)
 
 /-- `"".join(map(name2unicode, components))`, `none` when any component raises. -/
 def joinAll (gl : GlyphList) : List Name → Option Text
@@ -109,7 +109,7 @@ def name2unicode (gl : GlyphList) : Option Name → Option Text
   | none => none
   | some name =>
     let base := beforeDot name
-    let comps := splitOn '_' base
+    let comps := splitOn COMPONENT_SEP base
     if comps.length > 1 then joinAll gl comps else comp gl base
 
 /-! ### encodings -/
@@ -236,22 +236,27 @@ def tuDefs (es : List TuEntry) : List (Int × List UInt8) := es.flatMap entryDef
 /-- `FileUnicodeMap.add_cid2unichr(cid, code: bytes)` incl. the space / no-break-space rule. -/
 def addCid2Unichr (m : Table) (cid : Int) (code : List UInt8) : Table :=
   let u := utf16beIgnore code
-  if u == [0xA0] && tlookup m cid == some [0x20] then m else (cid, u) :: m
+  if u == COLLISION_NEW && tlookup m cid == some COLLISION_OLD then m else (cid, u) :: m
 
 def buildUmap (es : List TuEntry) : Table :=
   (tuDefs es).foldl (fun m d => addCid2Unichr m d.1 d.2) []
 
 /-! ### fonts -/
 
+/-- The result of reading an embedded Type 1 program's clear-text header: the `(cid, name)` pairs of
+its `put` keywords in order (see `Model/Type1Header.lean` for the tokeniser path). -/
 structure FontFile where
-  notdefLoop : Bool
   puts : List (Int × Option Name)
 deriving Repr
 
-structure Descriptor where
+/-- A font descriptor; `F` is what stands for the embedded font program (`FontFile` after the header has
+been read, `RawFontFile` = the stream bytes before). -/
+structure DescriptorOf (F : Type) where
   missingWidth : Option Rat
-  fontFile : Option FontFile
+  fontFile : Option F
 deriving Repr
+
+abbrev Descriptor := DescriptorOf FontFile
 
 inductive EncSpec where
   | absent
@@ -260,16 +265,34 @@ inductive EncSpec where
 deriving Repr
 
 /-- The entries of a font dictionary that the property talks about. -/
-structure FontDict where
+structure FontDictOf (F : Type) where
   isType3 : Bool                     -- Subtype Type3; Type1, MMType1, TrueType, absent, unknown are all PDFType1Font
   baseFont : Option String
   enc : EncSpec
   toUnicode : Option (List TuEntry)
   firstChar : Option Int
   widths : Option (List Rat)
-  desc : Option Descriptor
+  desc : Option (DescriptorOf F)
   fontMatrix : Matrix
 deriving Repr
+
+abbrev FontDict := FontDictOf FontFile
+
+/-- `PDFResourceManager.get_font`: the class constructed for a font dictionary's Subtype (absent: Type1;
+unknown: the fallback class).  The table is regenerated from the if/elif chain of the source. -/
+def fontClassOf (subtype : Option String) : String :=
+  let sub := subtype.getD SUBTYPE_WHEN_ABSENT
+  match SUBTYPE_DISPATCH.find? (fun e => e.1.contains sub) with
+  | some e => e.2
+  | none => SUBTYPE_FALLBACK_CLASS
+
+/-- The simple-font classes C06 is about: `some true` = Type3, `some false` = Type1 / TrueType (the translator
+checks that `PDFTrueTypeFont` adds nothing to `PDFType1Font`), `none` = a composite font (C07). -/
+def simpleClass (subtype : Option String) : Option Bool :=
+  let c := fontClassOf subtype
+  if c == "PDFType3Font" then some true
+  else if c == "PDFType1Font" || c == "PDFTrueTypeFont" then some false
+  else none
 
 /-- What a constructed `PDFSimpleFont` keeps. -/
 structure Font where
@@ -311,17 +334,16 @@ def putsEncoding (gl : GlyphList) : Table → List (Int × Option Name) → Tabl
     | some u => putsEncoding gl ((cid, u) :: t) rest
     | none => putsEncoding gl (tpop t cid) rest
 
-/-- `0 1 255 {1 index exch /.notdef put} for` is scanned as ONE `put` of `/.notdef` under key 1. -/
-def builtinEncoding (gl : GlyphList) (ff : FontFile) : Table :=
-  putsEncoding gl [] ((if ff.notdefLoop then [((1 : Int), some ['.', 'n', 'o', 't', 'd', 'e', 'f'])] else []) ++ ff.puts)
+/-- `Type1FontHeaderParser.get_encoding`: the dict built from the results of the `put` keywords. -/
+def builtinEncoding (gl : GlyphList) (ff : FontFile) : Table := putsEncoding gl [] ff.puts
 
 /-- `PDFSimpleFont.__init__`: the encoding part. -/
 def specEncoding (gl : GlyphList) (db : EncDB) : EncSpec → Table
-  | .absent => getEncoding gl db "StandardEncoding" []
+  | .absent => getEncoding gl db DEFAULT_ENCODING []
   | .named n => getEncoding gl db n []
-  | .dict base diff => getEncoding gl db (base.getD "StandardEncoding") diff
+  | .dict base diff => getEncoding gl db (base.getD DEFAULT_ENCODING) diff
 
-def descMissingWidth (d : Option Descriptor) : Rat :=
+def descMissingWidth {F : Type} (d : Option (DescriptorOf F)) : Rat :=
   match d with
   | some d => d.missingWidth.getD 0
   | none => 0
@@ -346,7 +368,7 @@ def build (gl : GlyphList) (db : EncDB) (fm : Metrics) (fd : FontDict) : Font :=
         widthsInt := enumWidths first (fd.widths.getD []),   -- `if "Widths" in spec:` (no entries otherwise)
         widthsStr := m,
         defaultWidth := descMissingWidth fd.desc,
-        hscale := (1 : Rat) / 1000 }
+        hscale := DEFAULT_SCALE }
     | none =>
       let enc' := match fd.enc, fd.desc with
         | .absent, some d =>
@@ -357,7 +379,7 @@ def build (gl : GlyphList) (db : EncDB) (fm : Metrics) (fd : FontDict) : Font :=
       { cid2unicode := enc', umap := umap,
         widthsInt := enumWidths first (fd.widths.getD []), widthsStr := [],
         defaultWidth := descMissingWidth fd.desc,
-        hscale := (1 : Rat) / 1000 }
+        hscale := DEFAULT_SCALE }
 
 /-- `PDFSimpleFont.to_unichr`; `none` = `PDFUnicodeNotDefined`. -/
 def toUnichr (f : Font) (cid : Int) : Option Text :=
@@ -389,9 +411,9 @@ def charWidth (f : Font) (cid : Int) : Rat :=
 /-- Decimal digits of a natural number as code points (`"%d" % n`). -/
 def decDigits (n : Nat) : Text := (Nat.toDigits 10 n).map Char.toNat
 
-/-- `handle_undefined_char`: `"(cid:%d)" % cid`. -/
+/-- `handle_undefined_char`: `"(cid:%d)" % cid` (the text around the number is regenerated from the source). -/
 def placeholder (cid : Int) : Text :=
-  [40, 99, 105, 100, 58] ++ (if cid < 0 then [45] else []) ++ decDigits cid.natAbs ++ [41]
+  PLACEHOLDER_PREFIX ++ (if cid < 0 then [45] else []) ++ decDigits cid.natAbs ++ PLACEHOLDER_SUFFIX
 
 /-- `render_char`: the text of the `LTChar`. -/
 def glyphText (f : Font) (cid : Int) : Text :=
